@@ -2,7 +2,10 @@ package node
 
 import (
 	"bytes"
+	"fmt"
 	"strings"
+
+	"github.com/freeconf/yang/fc"
 )
 
 type PathMatcher interface {
@@ -34,13 +37,22 @@ type segments []string
 
 func ParsePathExpression(selector string) (*PathMatchExpression, error) {
 	pe := &PathMatchExpression{}
-	pe.parsex(&lex{selector: selector})
+	l := &lex{selector: selector}
+	pe.parsex(l)
+	if l.err != nil {
+		return nil, l.err
+	}
 	return pe, nil
 }
+
+// every group after a prefix multiplies the paths an expression stands for, a short
+// expression can stand for more paths than there is memory
+const maxExpandedPaths = 10000
 
 type lex struct {
 	pos      int
 	selector string
+	err      error
 }
 
 func (l *lex) next() (s string) {
@@ -66,12 +78,16 @@ func (l *lex) done() bool {
 func (e *PathMatchExpression) parsex(l *lex) {
 	s := e
 	var split *PathMatchExpression
-	for !l.done() {
+	for !l.done() && l.err == nil {
 		t := l.next()
 		switch t {
 		case "(":
 			nested := &PathMatchExpression{}
 			nested.parsex(l)
+			if len(s.paths)*len(nested.paths) > maxExpandedPaths {
+				l.err = fmt.Errorf("%w. expression selects more than %d paths", fc.BadRequestError, maxExpandedPaths)
+				return
+			}
 			s.expandPaths(nested)
 		case ";":
 			if split != nil {
